@@ -165,14 +165,15 @@ PROPS["C17"] = {
     "groups": [
         {"crate": "std", "quick": ["c17::"], "jobs": 8, "mem_gb": 6, "timeout_s": 600},
         # (b) Xen build: on-demand grant regions
-        {"crate": "xen", "quick": ["x17::ondemand_write", "x17::ondemand_atomic_store", "x17::ub_null_base_add"], "thorough": ["x17::"], "jobs": 1, "mem_gb": 40, "timeout_s": 1800, "stubbed": True,
+        {"crate": "xen", "quick": ["x17::ondemand_write", "x17::ondemand_atomic_store", "x17::ub_null_base_add"], "thorough": ["x17::ondemand_obj"], "jobs": 1, "mem_gb": 40, "timeout_s": 1800, "stubbed": True,
          "kani_flags": ["-Z", "restrict-vtable"], "unwindset": {"default": 1, "rules": _XEN_RULES}},
     ],
     "bounds": "(a) standard build: parent = every window of a 32-byte buffer, offset and element count unconstrained, element types u8,u16,u32,u64,u128,[u8;3],Le32. "
               "(b) Xen build: on-demand grant region of 4 pages under a 64-byte page model, guest base any page-aligned u64, domain id any u32; one access per query at ANY "
-              "region offset with length 1..=9 (buffer write/read; thorough: u64 object / typed-ref store, u16 element-array copy of <= 4 elements), i.e. one- and two-page "
+              "region offset with length 1..=9 (buffer write; thorough: u64 object / typed-ref store), i.e. one- and two-page "
               "windows at every in-page offset; atomic store at any 4-aligned offset",
-    "outside": "sequences of accesses longer than one (every access constructs and drops its own window; 'none remains' is asserted after each); windows of more than "
+    "outside": "the buffer READ direction and the u16 element-array copy on on-demand regions (harnesses x17::ondemand_read / ondemand_array_copy exist but are in no tier: the "
+               "read query ran out of memory at 40 GB, the array copy lacks a validated loop bound); sequences of accesses longer than one (every access constructs and drops its own window; 'none remains' is asserted after each); windows of more than "
                "two pages; advance-mapped grant/foreign regions' data path (construction requests are C15's); real gntdev/privcmd behaviour (modelled)",
     "assumptions": ["xstubs.rs: Kani stub of vmm_sys_util::ioctl::ioctl_with_ref logs requests and hands out map indices; cffi.rs mmap/munmap/sysconf(64-byte page) models",
                     "x17 harnesses stub kani::rustc_intrinsics::offset with wrapping address arithmetic: pointer addition on the NULL-based pseudo-pointers of on-demand "
